@@ -186,7 +186,7 @@ def sym_put(a, ind, v):
     the buffer of `a` (so views/aliases observe it, like numpy)."""
     tgt = plain(a)
     if not tgt.flags.writeable:
-        raise ValueError("assignment destination is read-only")
+        raise ValueError("put: output array is read-only")  # np.put checks the flag (ufunc.at does not)
     ind_flat = list(obj(ind).flat)
     v_flat = list(obj(v).flat)
     if len(v_flat) == 0:
@@ -209,12 +209,27 @@ def sym_put(a, ind, v):
     return None
 
 
+def _force_writeable(arr):
+    import warnings
+
+    v = arr.view()
+    try:
+        with warnings.catch_warnings():
+            warnings.simplefilter("ignore")
+            v.flags.writeable = True
+        return v
+    except ValueError:
+        return np.lib.stride_tricks.as_strided(arr, shape=arr.shape, strides=arr.strides, writeable=True)
+
+
 def sym_ufunc_at(binop, a, indices, b):
     """np.<ufunc>.at(a, indices, b) on a 1-D target: unbuffered sequential a[i] = a[i] op b, with b
     broadcast against the index array (numpy's documented behaviour)."""
     tgt = plain(a)
     if not tgt.flags.writeable:
-        raise ValueError("assignment destination is read-only")
+        # numpy's ufunc.at does NOT honour the writeable flag (it writes through read-only views such as
+        # np.diagonal / np.broadcast_to results; np.put does check): mirror that
+        tgt = _force_writeable(tgt)
     if tgt.ndim != 1:
         raise NotImplementedError("sym_ufunc_at: only 1-D targets are modelled")
     ind = obj(indices)
